@@ -274,9 +274,9 @@ def gen_py_case(rng, layer):
         if i > 0 and rng.below(6) == 0:
             series[i] = json.loads(json.dumps(series[i - 1]))
     if equal:
-        container = rng.choice(["list", "matrix"])
+        container = rng.choice(["list", "matrix", "views"])
     else:
-        container = "list"
+        container = rng.choice(["list", "list", "views"])
     minlen = min(len(s) for s in series)
     maxlen = max(len(s) for s in series)
     kw = {}
@@ -342,6 +342,19 @@ def build_container(c):
     import numpy as np
     if c["container"] == "matrix":
         return np.array(c["series"], dtype=np.double)
+    if c["container"] == "views":
+        # the same numbers as non-contiguous views (every second element of a larger array / reversed): the serial and the
+        # parallel routes must agree on these too
+        out = []
+        for i, s in enumerate(c["series"]):
+            a = np.array(s, dtype=np.double)
+            if i % 2 == 0:
+                base = np.full((2 * len(s),) + a.shape[1:], 7.75)
+                base[::2] = a
+                out.append(base[::2])
+            else:
+                out.append(np.ascontiguousarray(a[::-1])[::-1])
+        return out
     return [np.array(s, dtype=np.double) for s in c["series"]]
 
 
